@@ -71,17 +71,19 @@ func nonZeroPrefix(sector int) uint64 {
 }
 
 type env struct {
-	tb        testing.TB
-	cm        *chain.Manager
-	w         *wallet.SingleAddressWallet
-	hostKey   types.PrivateKey
-	renterKey types.PrivateKey
-	net       *memnet.Net
-	server    *rhp4.Server
-	ec        *testutil.EphemeralContractor
-	ss        *testutil.EphemeralSectorStore
-	signer    *fundAndSign
-	cs        consensus.State
+	tb         testing.TB
+	syncWallet func()
+	life       *env // a second, independent host/chain for the contract lifecycle RPCs (lazily built)
+	cm         *chain.Manager
+	w          *wallet.SingleAddressWallet
+	hostKey    types.PrivateKey
+	renterKey  types.PrivateKey
+	net        *memnet.Net
+	server     *rhp4.Server
+	ec         *testutil.EphemeralContractor
+	ss         *testutil.EphemeralSectorStore
+	signer     *fundAndSign
+	cs         consensus.State
 
 	prices    proto4.HostPrices
 	pricesAt  time.Time
@@ -140,7 +142,9 @@ func newEnv(tb testing.TB) *env {
 		tb.Fatal(err)
 	}
 	tb.Cleanup(func() { e.w.Close() })
-	syncWallet := func() {
+	var syncWallet func()
+	defer func() { e.syncWallet = syncWallet }()
+	syncWallet = func() {
 		for {
 			tip, err := ws.Tip()
 			if err != nil {
@@ -313,4 +317,20 @@ func (e *env) freshAccounts(n int) []proto4.Account {
 		out[i] = proto4.Account(detHash(fmt.Sprintf("account/%d", e.acctCount)))
 	}
 	return out
+}
+
+// mine mines n blocks paying the wallet and brings wallet and contractor up to the new tip.
+func (e *env) mine(n int) {
+	testutil.MineBlocks(e.tb, e.cm, e.w.Address(), n)
+	e.syncWallet()
+	waitFor(e.tb, "contractor tip", func() bool { t, _ := e.ec.Tip(); return t == e.cm.Tip() })
+}
+
+// lifeEnv returns the environment of the contract lifecycle RPCs (form, renew, refresh): they mine a
+// block or two per case, which must not age the contract the other RPCs work on.
+func (e *env) lifeEnv() *env {
+	if e.life == nil {
+		e.life = newEnv(e.tb)
+	}
+	return e.life
 }
